@@ -1,4 +1,4 @@
-From Verif Require Import Lib.Base Mkvs.Trie Mkvs.BitsProofs Mkvs.AlistProofs Mkvs.TrieProofs Mkvs.Overlay Mkvs.OverlayProofs.
+From Verif Require Import Lib.Base Mkvs.Trie Mkvs.BitsProofs Mkvs.AlistProofs Mkvs.TrieProofs Mkvs.Overlay Mkvs.OverlayProofs Mkvs.Key Mkvs.Iter Mkvs.IterProofs Mkvs.Lazy Mkvs.LazyProofs.
 
 (* C03 - MKVS tree and overlays behave as an ordered map.
    [s_run] = the model of the tree object (pending write log, Insert, Remove,
@@ -82,3 +82,39 @@ Theorem merged_iterator_sorted_complete :
     merge_iter (dirty o) (al_seek k m) (al_seek k (ov o)) = al_seek k (apply_overlay o m).
 Proof. exact OverlayProofs.merge_iter_spec. Qed.
 Print Assumptions merged_iterator_sorted_complete.
+
+(* ---- the byte-level port of treeIterator.doNext (Mkvs/Iter.v; this is what the
+   correspondence runs evaluate).  FULL statement, open:
+     doNext_refines_seek : forall t k, wf t -> valid_bytes k ->
+                             port_iter k t = al_seek k (contents t).
+   Proved: the statement on every tree over a 10-key adversarial universe (1024
+   trees) and 23 seek keys, by exhaustive evaluation; and that the runner with
+   the ported iterator equals the specified runner wherever the port agrees
+   with the specification iterator. ---- *)
+Theorem doNext_refines_seek_partial :
+  forall ks k, In ks (sublists iter_universe) -> In k iter_seeks ->
+    port_iter k (build_keys ks) = al_seek k (contents (build_keys ks)).
+Proof. exact IterProofs.doNext_refines_seek_partial. Qed.
+Print Assumptions doNext_refines_seek_partial.
+
+Theorem port_run_eq_spec_run :
+  forall ops st, port_agrees_along st ops -> s_run_p st ops = s_run st ops.
+Proof. exact IterProofs.port_run_eq_spec_run. Qed.
+Print Assumptions port_run_eq_spec_run.
+
+(* ---- the node cache (Mkvs/Lazy.v): partial trees, eviction, derefNodePtr ---- *)
+Theorem eviction_invisible :
+  forall (H : bytes -> bytes) ops p, trace_ok H p ops ->
+    snd (lazy_run H p ops) = snd (eager_run H (view p) ops) /\
+    view (fst (lazy_run H p ops)) = fst (eager_run H (view p) ops).
+Proof. exact LazyProofs.eviction_invisible. Qed.
+Print Assumptions eviction_invisible.
+
+Theorem eviction_f1_refuted :
+  evict f1_before f1_after /\ ~ safe f1_after /\
+  lazy_get [97] f1_before = Some [1] /\ lazy_get [97] f1_after = None /\
+  lazy_get [97; 98] f1_before = Some [3] /\ lazy_get [97; 98] f1_after = None /\
+  lazy_get [98] f1_after = Some [2] /\
+  contents (view (fst (lazy_commit (fun x => x) (lazy_insert [122] [9] f1_after)))) = [([98], [2]); ([122], [9])].
+Proof. exact LazyProofs.eviction_f1_refuted. Qed.
+Print Assumptions eviction_f1_refuted.
